@@ -1,0 +1,121 @@
+//go:build verif
+
+package gbn
+
+import (
+	"sync/atomic"
+	"time"
+)
+
+// VerifSinkFunc is the signature of the verification trace sink. The src
+// argument identifies the connection the event belongs to (the connection's
+// TimeoutManager pointer, which is shared by the connection, its queue and its
+// syncer), ev is the event name and kv the event's integer arguments.
+type VerifSinkFunc func(src any, ev string, kv ...int)
+
+var verifSink atomic.Pointer[VerifSinkFunc]
+
+// SetVerifSink installs (or, with nil, removes) the verification trace sink.
+func SetVerifSink(f VerifSinkFunc) {
+	if f == nil {
+		verifSink.Store(nil)
+		return
+	}
+	verifSink.Store(&f)
+}
+
+// vtrace forwards a verification trace event to the installed sink, if any.
+func vtrace(src any, ev string, kv ...int) {
+	if f := verifSink.Load(); f != nil {
+		(*f)(src, ev, kv...)
+	}
+}
+
+// VerifID returns the identity under which the connection's trace events are
+// reported.
+func (g *GoBackNConn) VerifID() any { return g.timeoutManager }
+
+// VerifTimeoutManager exposes the connection's timeout manager.
+func (g *GoBackNConn) VerifTimeoutManager() *TimeoutManager {
+	return g.timeoutManager
+}
+
+// VerifN returns the window size and sequence space the connection uses.
+func (g *GoBackNConn) VerifN() (uint8, uint8) { return g.cfg.n, g.cfg.s }
+
+// VerifQueueState returns the send queue's base, top and size.
+func (g *GoBackNConn) VerifQueueState() (uint8, uint8, uint8) {
+	q := g.sendQueue
+	sz := q.size()
+	q.baseMtx.RLock()
+	b := q.sequenceBase
+	q.baseMtx.RUnlock()
+	q.topMtx.RLock()
+	t := q.sequenceTop
+	q.topMtx.RUnlock()
+	return b, t, sz
+}
+
+// VerifQueue is a handle on a stand-alone send queue, used to drive the window
+// arithmetic directly.
+type VerifQueue struct{ q *queue }
+
+// NewVerifQueue creates a stand-alone queue with sequence space s whose resent
+// packets are passed to sendPkt.
+func NewVerifQueue(s uint8, sendPkt func(seq uint8) error,
+	opts ...TimeoutOptions) *VerifQueue {
+
+	tm := NewTimeOutManager(nil, opts...)
+	q := newQueue(&queueCfg{s: s, sendPkt: func(p *PacketData) error {
+		if sendPkt == nil {
+			return nil
+		}
+		return sendPkt(p.Seq)
+	}}, tm)
+	return &VerifQueue{q: q}
+}
+
+func (v *VerifQueue) ID() any                            { return v.q.timeoutManager }
+func (v *VerifQueue) Add() uint8                         { p := &PacketData{}; v.q.addPacket(p); return p.Seq }
+func (v *VerifQueue) Size() uint8                        { return v.q.size() }
+func (v *VerifQueue) ProcessACK(seq uint8) bool          { return v.q.processACK(seq) }
+func (v *VerifQueue) ProcessNACK(seq uint8) (bool, bool) { return v.q.processNACK(seq) }
+func (v *VerifQueue) Resend() error                      { return v.q.resend() }
+func (v *VerifQueue) Stop()                              { v.q.stop() }
+func (v *VerifQueue) State() (uint8, uint8) {
+	return v.q.sequenceBase, v.q.sequenceTop
+}
+func (v *VerifQueue) Set(base, top uint8) {
+	v.q.sequenceBase, v.q.sequenceTop = base, top
+	for i := range v.q.content {
+		v.q.content[i] = &PacketData{Seq: uint8(i)}
+	}
+}
+
+// VerifContainsSequence exposes containsSequence.
+func VerifContainsSequence(base, top, seq uint8) bool {
+	return containsSequence(base, top, seq)
+}
+
+// VerifBoosterState returns the booster count of the resend and handshake
+// boosters.
+func (m *TimeoutManager) VerifBoosterState() (int, int, time.Duration) {
+	m.mu.RLock()
+	defer m.mu.RUnlock()
+	m.resendBooster.mu.Lock()
+	rc := m.resendBooster.boostCount
+	orig := m.resendBooster.originalTimeout
+	m.resendBooster.mu.Unlock()
+	m.handshakeBooster.mu.Lock()
+	hc := m.handshakeBooster.boostCount
+	m.handshakeBooster.mu.Unlock()
+	return rc, hc, orig
+}
+
+// b2i converts a bool to an int for vtrace arguments.
+func b2i(b bool) int {
+	if b {
+		return 1
+	}
+	return 0
+}
